@@ -60,6 +60,8 @@ func runC02(c *Ctx) {
 	c.ruleS4("S4-for-range")
 	c.ruleS5("S5-sentinels")
 	c.ruleM3("S6-flag-shape", "S6-flag-implies-success")
+	c.ruleM3b("S6-flag-filtered-above-break")
+	c.ruleM3c("S6-return-sets-flag")
 	c.Min("S6-flag-shape", 30)
 	c.ruleS7("S7-assignment-table")
 	// S8 shares C15's rules: one store per execution, threaded unchanged
